@@ -218,6 +218,63 @@ def main():
                 bad += 1
                 print(f"MISMATCH {label} spec={spec}\n   CPython {str(want)[:600]}\n   engine  {str(got)[:600]}")
     print(f"engine cross-check (symbolic layer): {total} operator runs on random circuits, {bad} mismatches, {unsupported} outside the engine's subset")
+    # ---- templates: tensor factorisations, graphical models, region graphs + build_circuit (a stub `torch` module lets the package import:
+    #      only chow_liu.py / data_modalities.py mention torch, and neither is exercised here)
+    import types
+    if "torch" not in sys.modules:
+        t = types.ModuleType("torch")
+        t.Tensor = type("Tensor", (), {})
+        sys.modules["torch"] = t
+    import functools
+    import cirkit.templates.tensor_factorizations as NTF
+    import cirkit.templates.pgms as NPG
+    from cirkit.templates.region_graph import FullyFactorized as NFF, LinearTree as NLT
+    from cirkit.templates.utils import Parameterization as NParam, parameterization_to_factory as np2f, name_to_input_layer_factory as nn2f
+    from cirkit.symbolic.parameters import mixing_weight_factory as nmix
+    from engine.values import PartialVal, ClassVal
+    TF, PG, TU = "cirkit/templates/tensor_factorizations.py", "cirkit/templates/pgms.py", "cirkit/templates/utils.py"
+    FA, LA = "cirkit/templates/region_graph/algorithms/factorized.py", "cirkit/templates/region_graph/algorithms/linear.py"
+    SPp = "cirkit/symbolic/parameters.py"
+    tcases = []
+    for shape, rank in (((2, 3), 1), ((2, 3), 2), ((3, 2, 2), 2), ((2, 2, 3, 2), 3)):
+        for name in ("cp", "tucker", "tensor_train"):
+            tcases.append((f"{name}{shape}r{rank}", lambda name=name, shape=shape, rank=rank: getattr(NTF, name)(shape, rank),
+                           lambda vc, name=name, shape=shape, rank=rank: vc.call(f"{TF}:{name}", tuple(shape), rank)))
+    for order in ([0, 1, 2], [2, 0, 1], [1, 2, 0, 3], [0]):
+        kw = {"input_layer": "categorical", "num_latent_states": 2, "input_layer_kwargs": [{"num_categories": 2 + i} for i in range(len(order))]}
+        tcases.append((f"hmm{order}", lambda order=order, kw=kw: NPG.hmm(list(order), **kw), lambda vc, order=order, kw=kw: vc.call(f"{PG}:hmm", list(order), **kw)))
+    for n in (1, 2, 3):
+        kw = {"input_layer": "categorical", "input_layer_kwargs": [{"num_categories": 2 + i} for i in range(n)]}
+        tcases.append((f"fully_factorized{n}", lambda n=n, kw=kw: NPG.fully_factorized(n, **kw), lambda vc, n=n, kw=kw: vc.call(f"{PG}:fully_factorized", n, **kw)))
+    for alg, n, reps in (("ff", 3, 2), ("ff", 1, 1), ("lt", 3, 1), ("lt", 4, 2), ("lt", 2, 1)):
+        for sp in ("cp", "cp-t", "tucker"):
+            def nat(alg=alg, n=n, reps=reps, sp=sp):
+                rg = (NFF if alg == "ff" else NLT)(n, num_repetitions=reps)
+                wf = np2f(NParam(activation="softmax", initialization="normal"))
+                return rg.build_circuit(input_factory=nn2f("categorical", num_categories=3), sum_product=sp, sum_weight_factory=wf,
+                                        nary_sum_weight_factory=functools.partial(nmix, param_factory=wf), num_input_units=2, num_sum_units=2, num_classes=1)
+
+            def eng(vc, alg=alg, n=n, reps=reps, sp=sp):
+                rg = vc.call(f"{FA}:FullyFactorized" if alg == "ff" else f"{LA}:LinearTree", n, num_repetitions=reps)
+                wf = vc.call(f"{TU}:parameterization_to_factory", vc.new(f"{TU}:Parameterization", activation="softmax", initialization="normal"))
+                nary = PartialVal(vc.I.wrap_resolved(vc.repo.resolve_name(vc.repo.module_by_path(SPp), "mixing_weight_factory")), [], {"param_factory": wf})
+                inp = vc.call(f"{TU}:name_to_input_layer_factory", "categorical", num_categories=3)
+                return vc.call((rg, "build_circuit"), input_factory=inp, sum_product=sp, sum_weight_factory=wf, nary_sum_weight_factory=nary,
+                               num_input_units=2, num_sum_units=2, num_classes=1)
+            tcases.append((f"build_circuit.{alg}{n}x{reps}.{sp}", nat, eng))
+    tbad = tuns = 0
+    for label, nat, eng in tcases:
+        try:
+            want, got = both(label, nat, eng)
+        except Unsupported as e:
+            tuns += 1
+            reasons[f"{label}: {e}"] = 1
+            continue
+        if want != got:
+            tbad += 1
+            print(f"MISMATCH template {label}\n   CPython {str(want)[:700]}\n   engine  {str(got)[:700]}")
+    print(f"engine cross-check (templates): {len(tcases)} template circuits, {tbad} mismatches, {tuns} outside the engine's subset")
+    bad += tbad
     for r, n in sorted(reasons.items(), key=lambda kv: -kv[1])[:6]:
         print(f"   outside the subset x{n}: {r[:150]}")
     return 1 if bad else 0
